@@ -1,7 +1,7 @@
 (* Properties_C01.v — C01: multiplication is exact for every operand shape and content.
    Statements only; each closed by a lemma of theories/ and followed by Print Assumptions. *)
 From Coq Require Import ZArith List Bool.
-From Mpir Require Import Word Limbs MpnBasicDefs MpzDefs MpnMulDefs MpnMulProofs FftDefs FftProofs.
+From Mpir Require Import Toom3Defs Toom3Proofs Word Limbs MpnBasicDefs MpzDefs MpnMulDefs MpnMulProofs FftDefs FftProofs.
 Import ListNotations.
 Local Open Scope Z_scope.
 
@@ -81,6 +81,33 @@ Theorem C01_fft_params_safe : forall t n1 n2 c,
   fft_params (tab_of t) n1 n2 = Some c -> choice_ok n1 n2 c.
 Proof. exact fft_params_safe. Qed.
 Print Assumptions C01_fft_params_safe.
+
+
+(* Toom-3 as coded (mpn/generic/toom3_mul_n.c, mpn_toom3_interpolate in toom3_mul.c): split at k limbs, the five evaluation
+   points with the sign of the point at -1, the interpolation sequence with its division by 3 and two halvings, the
+   recombination: the result is the exact product for every k > 0 and all operands, whatever routine computes the five
+   recursive products exactly *)
+Theorem C01_toom3_mul : forall mulrec k a b,
+  (forall x y, mulrec x y = x * y) -> 0 < k -> 0 <= a -> 0 <= b -> toom3_mul mulrec k a b = a * b.
+Proof. exact toom3_mul_correct. Qed.
+Print Assumptions C01_toom3_mul.
+
+(* the three divisions of the interpolation are exact, and the evaluation points respect the bounds the C code asserts
+   (v1 < 9 B^2k, |vm1| < 4 B^2k, v2 < 49 B^2k): every intermediate fits the 2k+1 limbs reserved for it *)
+Theorem C01_toom3_exact_divisions_and_bounds : forall mulrec k r a0 a1 a2 b0 b1 b2,
+  (forall x y, mulrec x y = x * y) -> 1 <= r <= k ->
+  0 <= a0 < Bpow k -> 0 <= a1 < Bpow k -> 0 <= a2 < Bpow r -> 0 <= b0 < Bpow k -> 0 <= b1 < Bpow k -> 0 <= b2 < Bpow r ->
+  let p := toom3_eval mulrec a0 a1 a2 b0 b1 b2 in
+  ((3 | toom3_dividend_by3 p) /\ (2 | toom3_dividend_half1 p) /\ (2 | toom3_dividend_half2 p))
+  /\ (0 <= pt_v1 p < 9 * Bpow (2 * k)) /\ (0 <= pt_vm1 p < 4 * Bpow (2 * k)) /\ (0 <= pt_v2 p < 49 * Bpow (2 * k))
+  /\ (0 <= pt_v0 p < Bpow (2 * k)) /\ (0 <= pt_vinf p < Bpow (2 * r)).
+Proof.
+  intros mulrec k r a0 a1 a2 b0 b1 b2 Hm Hr Ha0 Ha1 Ha2 Hb0 Hb1 Hb2 p.
+  split; [exact (toom3_divisions_exact mulrec Hm a0 a1 a2 b0 b1 b2) |].
+  destruct (toom3_bounds mulrec k r a0 a1 a2 b0 b1 b2 Hm Hr Ha0 Ha1 Ha2 Hb0 Hb1 Hb2) as (H1 & H2 & _ & H4 & H5 & H6).
+  repeat split; first [apply H1 | apply H2 | apply H4 | apply H5 | apply H6].
+Qed.
+Print Assumptions C01_toom3_exact_divisions_and_bounds.
 
 Example C01_nonvacuous :
   wf [B - 1; B - 1] /\ mul_basecase [B - 1; B - 1] [B - 1; B - 1] = [1; 0; B - 2; B - 1]
